@@ -5,7 +5,9 @@ every byte string; own parser round trip; accept => 40-hex urn:btih topic; track
 index set; translator-generated safe set / pieces / literals).
 Correspondence: `magnet_print` / `magnet_parse` / `metainfo_trackers` hooks vs the extracted model
 (`mprint` / `mparse` / `mtrackers`), the real binary's `torrent link`, `torrent create --link`,
-`torrent from-link` (rejections only).
+`torrent from-link` (rejections only). X12: String::from_utf8_lossy is modelled (Model/Utf8.v) and compared with the real
+parser (`dn` values that percent-decode to arbitrary byte strings, `magnet_parse` hook), with Rust's std called directly and
+with CPython's errors="replace" decoder (`u8lossy` / `mparse_lossy`).
 Direct oracle: urllib.parse (`unquote`, `unquote_plus`, `parse_qsl`) on the text after `magnet:?`,
 hashlib for the infohash, Python's own ordered de-duplication / sorted set."""
 import hashlib, ipaddress, json, os, shutil, tempfile
@@ -16,13 +18,18 @@ MANIFEST = dict(
     text="Machine-checked proof over a Gallina model of MagnetLink::to_url / push_value / parse, Url::set_query and "
          "query_pairs, Metainfo::trackers and the BTreeSet of indices: for every byte string in every field a standard "
          "query-string parser (with or without +-as-space) decodes the printed URI to exactly xt, dn, tr*, x.pe*, so; imdl's own "
-         "parser recovers infohash, name, trackers, peers; anything it accepts has a 40-hex urn:btih topic. Tied to the code by "
+         "parser recovers infohash, name, trackers, peers; anything it accepts has a 40-hex urn:btih topic. String::from_utf8_lossy "
+         "(applied by query_pairs to every key and value) is modelled after std's Utf8Chunks loop and proved, for all byte strings, to "
+         "fix exactly the valid UTF-8 strings, to return valid UTF-8, to be idempotent, to replace each maximal invalid part by one "
+         "U+FFFD that never merges with a neighbour; a dn value that is not valid UTF-8 is reported as exactly that conversion. Tied to the code by "
          "translator-generated tables (safe set, pushed pieces, parser literals) and a hook/binary correspondence run with an "
          "independent urllib oracle. Right level: fidelity depends on every reserved character in every field.",
     ref="DESIGN.md section 5, C10",
     technique="Coq proof over a Gallina model + translator-generated tables + model/implementation correspondence run",
     note="Assumed (Section variables, validated through hooks): url crate parse-of-serialisation is the identity on a link's "
-         "trackers, HostPort parse-of-display is the identity on its peers (C17), from_utf8_lossy is the identity on valid UTF-8. "
+         "trackers (a theorem for trackers in normal form, X10), HostPort parse-of-display is the identity on its peers (C17). "
+         "from_utf8_lossy is no longer assumed: Model/Utf8.v, compared on >= 100 000 byte strings per quick run with the parser, with std "
+         "called directly and with CPython. "
          "Typed fields are compared modulo url-crate normal form; 'distinct tracker' = distinct stored text. "
          "`magnet://authority` texts are outside the parser model (oracle only). Trusted: Coq kernel, tools/rs2v_magnet.py, "
          "extraction + runner, hooks + harness, Python oracle (urllib.parse, hashlib).")
@@ -753,6 +760,332 @@ def run_e2e_reject(ctx, texts):
                           {"kind": "e2e-reject", "argv": ["imdl", "torrent", "from-link", t], "rc": rc, "stderr": err.decode("utf-8", "replace")[-300:]})
 
 
+# ---------------------------------------------------------------- String::from_utf8_lossy (X12)
+#
+# MagnetLink::parse reads its pairs through Url::query_pairs = form_urlencoded::parse, which percent-decodes every key and value
+# and converts the bytes with String::from_utf8_lossy. Model/Utf8.v models that conversion (the Utf8Chunks loop), and
+# c10_own_parser_any_name says the parser reports exactly Utf8.lossy of the percent-decoded `dn` value. Here the extracted
+# Utf8.lossy / Utf8.chunks / own_parse-with-Utf8.lossy are run against
+#   (a) the real parser: magnet URIs whose `dn=` value is the percent-encoding of the byte string, through the `magnet_parse` hook;
+#   (b) Rust's std called directly (a 20-line program compiled with the same toolchain: String::from_utf8_lossy and
+#       <[u8]>::utf8_chunks), which also ties the iterator model Utf8.chunks;
+#   (c) CPython's bytes.decode("utf-8", "replace"), the independent third oracle (same maximal-subpart practice).
+
+REPL = b"\xef\xbf\xbd"
+BOUNDARY_CPS = [0x00, 0x01, 0x20, 0x25, 0x2b, 0x41, 0x7f, 0x80, 0xa0, 0xe9, 0x7ff, 0x800, 0xfff, 0x1000, 0xcfff, 0xd000, 0xd7ff,
+                0xe000, 0xfeff, 0xfffd, 0xfffe, 0xffff, 0x10000, 0x1f600, 0x3ffff, 0x40000, 0xfffff, 0x100000, 0x10ffff]
+REP_BYTES = [0x00, 0x41, 0x7f, 0x80, 0x8f, 0x90, 0x9f, 0xa0, 0xbf, 0xc0, 0xc1, 0xc2, 0xdf, 0xe0, 0xe1, 0xec, 0xed, 0xee, 0xef,
+             0xf0, 0xf1, 0xf3, 0xf4, 0xf5, 0xff]
+
+
+def u8_valid_char(r, n=None):
+    """one scalar value whose UTF-8 form has n bytes (boundary values favoured)"""
+    n = n or r.choice([1, 2, 3, 4])
+    lo, hi = {1: (0, 0x7f), 2: (0x80, 0x7ff), 3: (0x800, 0xffff), 4: (0x10000, 0x10ffff)}[n]
+    pool = [c for c in BOUNDARY_CPS if lo <= c <= hi]
+    while True:
+        c = r.choice(pool) if r.random() < 0.5 else r.randint(lo, hi)
+        if not 0xd800 <= c <= 0xdfff:
+            return chr(c).encode("utf-8")
+
+
+def u8_cont(r):
+    return r.choice([0x80, 0x8f, 0x90, 0x9f, 0xa0, 0xbf, r.randrange(0x80, 0xc0)])
+
+
+def u8_noncont(r):
+    return r.choice([0x00, 0x41, 0x7f, 0xc0, 0xc2, 0xe0, 0xed, 0xf0, 0xf4, 0xf5, 0xff, r.randrange(0, 0x80), r.randrange(0xc0, 0x100)])
+
+
+def u8_lead(r, n):
+    return {2: lambda: r.choice([0xc2, 0xdf, r.randrange(0xc2, 0xe0)]),
+            3: lambda: r.choice([0xe0, 0xe1, 0xec, 0xed, 0xee, 0xef, r.randrange(0xe0, 0xf0)]),
+            4: lambda: r.choice([0xf0, 0xf1, 0xf3, 0xf4])}[n]()
+
+
+def u8_second(r, lead):
+    """a second byte the lead byte accepts"""
+    lo, hi = {0xe0: (0xa0, 0xbf), 0xed: (0x80, 0x9f), 0xf0: (0x90, 0xbf), 0xf4: (0x80, 0x8f)}.get(lead, (0x80, 0xbf))
+    return r.choice([lo, hi, r.randint(lo, hi)])
+
+
+U8_CLASSES = {
+    "ascii": lambda r: bytes(r.choice([0x20, 0x25, 0x26, 0x2b, 0x3d, 0x41, 0x61, 0x7a, 0x7f, 0x00, r.randrange(0x80)]) for _ in range(r.randint(1, 3))),
+    "valid2": lambda r: u8_valid_char(r, 2),
+    "valid3": lambda r: u8_valid_char(r, 3),
+    "valid4": lambda r: u8_valid_char(r, 4),
+    "lone_continuation": lambda r: bytes(u8_cont(r) for _ in range(r.choice([1, 1, 2, 3]))),
+    "truncated": lambda r: (lambda c: c[:r.randint(1, len(c) - 1)])(u8_valid_char(r, r.choice([2, 3, 4]))),
+    "overlong_c0_c1": lambda r: bytes([r.choice([0xc0, 0xc1]), u8_cont(r)]),
+    "overlong_e0": lambda r: bytes([0xe0, r.choice([0x80, 0x9f, r.randrange(0x80, 0xa0)]), u8_cont(r)]),
+    "overlong_f0": lambda r: bytes([0xf0, r.choice([0x80, 0x8f, r.randrange(0x80, 0x90)]), u8_cont(r), u8_cont(r)]),
+    "surrogate": lambda r: bytes([0xed, r.choice([0xa0, 0xbf, r.randrange(0xa0, 0xc0)]), u8_cont(r)]),
+    "above_f4_8f": lambda r: bytes([0xf4, r.choice([0x90, 0xbf, r.randrange(0x90, 0xc0)]), u8_cont(r), u8_cont(r)]),
+    "f5_ff": lambda r: bytes([r.choice([0xf5, 0xf8, 0xfc, 0xfe, 0xff, r.randrange(0xf5, 0x100)])] + [u8_cont(r) for _ in range(r.choice([0, 0, 1, 3]))]),
+    "bad_second": lambda r: (lambda n: (lambda l: bytes([l, u8_noncont(r)]))(u8_lead(r, n)))(r.choice([2, 3, 4])),
+    "bad_third": lambda r: (lambda l: bytes([l, u8_second(r, l), u8_noncont(r)]))(u8_lead(r, r.choice([3, 4]))),
+    "bad_fourth": lambda r: (lambda l: bytes([l, u8_second(r, l), u8_cont(r), u8_noncont(r)]))(u8_lead(r, 4)),
+    "random": lambda r: bytes(r.randrange(256) for _ in range(r.randint(1, 8))),
+}
+U8_INVALID = [k for k in U8_CLASSES if k not in ("ascii", "valid2", "valid3", "valid4", "random")]
+U8_VALID = ["ascii", "valid2", "valid3", "valid4"]
+
+
+def gen_lossy_cases(ctx):
+    """-> list of (bytes, label): exhaustive small strings, every class alone / at the start / at the end / between valid text /
+    next to every other class, every truncation of boundary characters followed by every kind of byte, then seeded mixtures"""
+    r = ctx.rng
+    out = {}
+
+    def add(b, label):
+        if b not in out:
+            out[b] = label
+    add(b"", "empty")
+    for a in range(256):                                            # every 1-byte string
+        add(bytes([a]), "exhaustive_1")
+    for a in range(256):                                            # every 2-byte string
+        for b in range(256):
+            add(bytes([a, b]), "exhaustive_2")
+    for a in REP_BYTES:                                             # every 3-byte string over the boundary bytes of each class
+        for b in REP_BYTES:
+            for c in REP_BYTES:
+                add(bytes([a, b, c]), "representatives_3")
+    if ctx.thorough:
+        for a in REP_BYTES:
+            for b in REP_BYTES:
+                for c in REP_BYTES:
+                    for d in REP_BYTES:
+                        add(bytes([a, b, c, d]), "representatives_4")
+    # every multi-byte boundary character, cut at every place, alone and followed by one byte / one character of each kind
+    followers = [b"", b"A", b"\x80", b"\xbf", b"\xc2", b"\xc3\xa9", b"\xe0", b"\xf0\x9f", b"\xff", REPL]
+    for cp in BOUNDARY_CPS:
+        ch = chr(cp).encode("utf-8")
+        for cut in range(1, len(ch)):
+            for f in followers:
+                add(ch[:cut] + f, "truncated_systematic")
+                add(b"x" + ch[:cut] + f, "truncated_systematic")
+    for k in range(ctx.n(6, 40)):
+        for a in U8_CLASSES:                                        # each class alone, at the start, at the end, in the middle
+            x = U8_CLASSES[a](r)
+            v1, v2 = U8_CLASSES[r.choice(U8_VALID)](r), U8_CLASSES[r.choice(U8_VALID)](r)
+            for b_, lab in ((x, "alone"), (x + v1, "at_start"), (v1 + x, "at_end"), (v1 + x + v2, "between_valid")):
+                add(b_, "class_" + lab)
+            for b in U8_CLASSES:                                    # each ordered pair of classes, adjacent
+                add(x + U8_CLASSES[b](r), "adjacent_pair")
+    n = ctx.n(20000, 250000)
+    tries = 0
+    while n > 0 and tries < 40 * ctx.n(20000, 250000):
+        tries += 1
+        k = r.choice([1, 2, 2, 3, 3, 4, 5, 6, 8])
+        x = r.random()
+        if x < 0.15:
+            parts = [U8_CLASSES["random"](r) for _ in range(k)]
+        elif x < 0.30:
+            parts = [U8_CLASSES[r.choice(U8_INVALID)](r) for _ in range(k)]
+        else:
+            parts = [U8_CLASSES[r.choice(U8_INVALID if r.random() < 0.5 else U8_VALID)](r) for _ in range(k)]
+        b = b"".join(parts)
+        if b not in out:
+            out[b] = "seeded_mixture"
+            n -= 1
+    return list(out.items())
+
+
+def lossy_text(r, s, ih):
+    """a magnet URI whose `dn` value percent-decodes to exactly the bytes s (all ASCII, so it is a Rust &str)"""
+    style = r.random()
+    if style < 0.6:
+        enc = "".join("%%%02X" % b for b in s)
+    elif style < 0.8:
+        enc = "".join("%%%02x" % b for b in s)
+    else:                                                           # unreserved ASCII left literal, space as `+`
+        enc = "".join(chr(b) if (48 <= b <= 57 or 65 <= b <= 90 or 97 <= b <= 122) else "+" if b == 32 else "%%%02X" % b for b in s)
+    if r.random() < 0.7:
+        return "magnet:?xt=urn:btih:%s&dn=%s" % (ih, enc)
+    return "magnet:?dn=%s&xt=urn:btih:%s" % (enc, ih)
+
+
+UTF8_STD_RS = r"""
+use std::io::{self, BufRead, Write};
+fn hex(b: &[u8]) -> String { if b.is_empty() { "-".into() } else { b.iter().map(|x| format!("{:02x}", x)).collect() } }
+fn main() {
+  let stdin = io::stdin();
+  let out = io::stdout();
+  let mut out = io::BufWriter::new(out.lock());
+  for line in stdin.lock().lines() {
+    let line = line.unwrap();
+    let b: Vec<u8> = if line == "-" { vec![] } else {
+      (0..line.len() / 2).map(|i| u8::from_str_radix(&line[2 * i..2 * i + 2], 16).unwrap()).collect() };
+    let s = String::from_utf8_lossy(&b);
+    let ch: Vec<String> = b.utf8_chunks().map(|c| format!("{}:{}", hex(c.valid().as_bytes()), hex(c.invalid()))).collect();
+    writeln!(out, "{} {} {}", hex(s.as_bytes()), if std::str::from_utf8(&b).is_ok() { 1 } else { 0 },
+             if ch.is_empty() { "~".to_string() } else { ch.join("/") }).unwrap();
+  }
+}
+"""
+
+
+def std_direct(ctx, strings):
+    """Rust's std itself, outside imdl: String::from_utf8_lossy, str::from_utf8, <[u8]>::utf8_chunks. -> replies or None"""
+    d = os.path.join(lib.CACHE, "utf8_std")
+    os.makedirs(d, exist_ok=True)
+    tag = hashlib.sha1(UTF8_STD_RS.encode()).hexdigest()[:12]
+    exe, src = os.path.join(d, "utf8_std_" + tag), os.path.join(d, "utf8_std_%s.rs" % tag)
+    if not os.path.exists(exe):
+        with lib.Lock("utf8std"):
+            if not os.path.exists(exe):
+                open(src, "w").write(UTF8_STD_RS)
+                rc, out = lib.sh(["rustc", "-O", "--edition", "2021", "-o", exe + ".tmp", src], timeout=300)
+                if rc != 0:
+                    ctx.notes.append("String::from_utf8_lossy could not be called directly (rustc failed: %s); the hook is the only "
+                                     "implementation side of the lossy comparison in this run" % out[-300:].replace("\n", " "))
+                    ctx.count("utf8_std_direct_unavailable")
+                    return None
+                os.replace(exe + ".tmp", exe)
+    return lib.run_lines(exe, [lib.hexs(s) for s in strings])
+
+
+def py_chunks(s):
+    """the iterator's items, recovered from CPython's strict decoder alone: (valid, invalid) with `invalid` = the bytes the decoder
+    reports as undecodable at the first error"""
+    items = []
+    while s:
+        try:
+            s.decode("utf-8")
+            items.append((s, b""))
+            break
+        except UnicodeDecodeError as e:
+            items.append((s[:e.start], s[e.start:e.end]))
+            s = s[e.end:]
+    return items
+
+
+def fmt_chunks(items):
+    return "/".join("%s:%s" % (lib.hexs(v), lib.hexs(i)) for v, i in items) if items else "~"
+
+
+def run_lossy_cases(ctx):
+    r = ctx.rng
+    cases = gen_lossy_cases(ctx)
+    ih = "%040x" % r.getrandbits(160)
+    texts = [lossy_text(r, s, ih) for s, _ in cases]
+    impl = ctx.harness(["mparse " + lib.hexs(t) for t in texts])
+    m1 = ctx.model(["u8lossy " + lib.hexs(s) for s, _ in cases])
+    m2 = ctx.model(["mparse_lossy " + lib.hexs(t) for t in texts])
+    std = std_direct(ctx, [s for s, _ in cases])
+    reported = {}
+
+    def report(kind, what, summary, case):
+        reported[what] = reported.get(what, 0) + 1
+        if reported[what] <= 3:
+            ctx.violation(kind, summary, case)
+        else:
+            ctx.count("utf8_further_" + what)
+
+    for k, ((s, label), t, i, a, b) in enumerate(zip(cases, texts, impl, m1, m2)):
+        ctx.cov["evaluations"] += 1
+        ctx.cov["traces_validated_against_impl"] += 1
+        ctx.count("utf8_" + label)
+        py = s.decode("utf-8", "replace").encode("utf-8")
+        pyc = py_chunks(s)
+        n_bad = sum(1 for _, inv in pyc if inv)
+        ctx.count("utf8_len_%s" % (len(s) if len(s) <= 4 else "5-8" if len(s) <= 8 else "9-16" if len(s) <= 16 else "17+"))
+        ctx.count("utf8_invalid_parts_%s" % (n_bad if n_bad <= 3 else "4+"))
+        if n_bad or any(x >= 0x80 for x in s):
+            ctx.distinct(("utf8", tuple((len(v), len(inv)) for v, inv in pyc)))
+        case = {"kind": "lossy", "bytes": s.hex(), "text": t, "impl": i, "model_u8lossy": a, "model_mparse_lossy": b,
+                "python_replace": py.hex(), "class": label,
+                "reproduce_hook": "printf 'mparse %s\\n' | imdl-verif-harness" % lib.hexs(t),
+                "reproduce": "imdl torrent from-link %s   # needs the network to go further; the hook shows the parsed name" % sh_quote(t)}
+        f = a.split(" ")
+        if len(f) != 5 or f[0] != "OK":
+            report("model-impl-disagreement", "model_died", "the extracted Utf8.lossy did not answer on %s: %s" % (s.hex(), a[:80]), case)
+            continue
+        ml, mf, mv, mc = lib.unhex(f[1]), lib.unhex(f[2]), f[3] == "1", f[4]
+        g = i.split(" ")
+        if not i.startswith("OK ") or len(g) != 5:
+            report("oracle-failure", "impl_rejects", "MagnetLink::parse does not accept a link whose dn value is the percent-encoding "
+                   "of %s: %s" % (s.hex(), i[:120]), case)
+            continue
+        name = None if g[2] == "~" else lib.unhex(g[2])
+        if g[1] != ih or g[3] != "~" or g[4] != "~":
+            report("oracle-failure", "impl_other_fields", "a dn value of %s changes the infohash, trackers or peers the parser reports: %s"
+                   % (s.hex(), i[:160]), case)
+            continue
+        if name != ml:
+            if name == py:
+                ctx.cov["disagreements_checked"] += 1
+                report("model-impl-disagreement", "lossy", "Utf8.lossy gives %s for %s, MagnetLink::parse (and CPython) give %s"
+                       % (ml.hex(), s.hex(), (name or b"").hex()), dict(case, relation="Utf8.lossy vs parsed name"))
+            else:
+                report("oracle-failure", "name", "the parsed name for dn = %s is %s; percent-decoding followed by lossy UTF-8 conversion "
+                       "gives %s (model and CPython agree)" % (t.split("dn=")[1].split("&")[0], "absent" if name is None else name.hex(), py.hex()),
+                       dict(case, expected=py.hex()))
+            continue
+        if ml != py:
+            ctx.count("utf8_python_differs_from_rust")
+            ctx.sample({"CPython's errors=replace differs from Rust (the model follows Rust)": s.hex(), "rust": ml.hex(), "python": py.hex()}, cap=12)
+        if mf != ml or mv != (py == s) or mc != fmt_chunks(pyc):
+            # from_utf8_lossy_eq / lossy_fixed_iff are theorems; the iterator's items are compared with CPython's error positions
+            ctx.cov["disagreements_checked"] += 1
+            report("model-impl-disagreement", "model_internal", "Utf8.from_utf8_lossy / utf8_valid / chunks on %s: %s; CPython: valid=%s items=%s"
+                   % (s.hex(), a, py == s, fmt_chunks(pyc)), dict(case, relation="Utf8.chunks vs CPython's decoder positions"))
+        if b != i:
+            ctx.cov["disagreements_checked"] += 1
+            report("model-impl-disagreement", "own_parse_lossy", "Magnet.own_parse with Utf8.lossy and MagnetLink::parse differ on %r: %s / %s"
+                   % (t, b[:120], i[:120]), dict(case, relation="own_parse Utf8.lossy"))
+        if std is not None:
+            want = "%s %d %s" % (lib.hexs(ml), 1 if mv else 0, mc)
+            if std[k] != want:
+                ctx.cov["disagreements_checked"] += 1
+                report("model-impl-disagreement", "std_direct", "Rust's String::from_utf8_lossy / from_utf8 / utf8_chunks on %s give `%s`, "
+                       "the model `%s`" % (s.hex(), std[k][:200], want[:200]), dict(case, std=std[k], relation="Utf8.lossy, utf8_valid, chunks vs std"))
+            else:
+                ctx.count("utf8_std_direct_agrees")
+    for s, label in cases[:1] + [c for c in cases if c[1] == "seeded_mixture"][:2]:
+        ctx.sample({"dn bytes": s.hex(), "class": label, "lossy": s.decode("utf-8", "replace").encode().hex()}, cap=12)
+    return ih
+
+
+def lossy_reject_texts(r, n):
+    """texts with invalid UTF-8 in keys, names and topics that have NO valid topic: for the real binary (`from-link` must exit 1)
+    and for the parser comparison. A topic of 37 hex digits and one invalid byte is 40 bytes long after the conversion."""
+    out = []
+    h40 = lambda: "".join(r.choice("0123456789abcdef") for _ in range(40))
+    for _ in range(n):
+        bad = "".join("%%%02X" % b for b in U8_CLASSES[r.choice(U8_INVALID)](r))
+        x = r.random()
+        if x < 0.25:
+            out.append("magnet:?dn=%s&xt=urn:btih:%s" % (bad, h40()[:39]))
+        elif x < 0.5:
+            out.append("magnet:?xt=urn:btih:%s%s&dn=x" % (h40()[:37], "%FF"))
+        elif x < 0.7:
+            out.append("magnet:?xt=urn:btih:%s%s" % (h40()[:r.choice([34, 36, 37, 38, 39])], bad))
+        elif x < 0.85:
+            out.append("magnet:?x%st=urn:btih:%s&dn=%s" % (bad, h40(), bad))
+        else:
+            out.append("magnet:?xt=urn:btih%s:%s" % (bad, h40()))
+    return out
+
+
+def run_lossy_reject_cases(ctx, texts):
+    """own_parse with Utf8.lossy against MagnetLink::parse on texts whose keys / topics carry invalid UTF-8"""
+    impl = ctx.harness(["mparse " + lib.hexs(t) for t in texts])
+    model = ctx.model(["mparse_lossy " + lib.hexs(t) for t in texts])
+    for t, i, m in zip(texts, impl, model):
+        ctx.cov["evaluations"] += 1
+        ctx.cov["traces_validated_against_impl"] += 1
+        ctx.count("utf8_invalid_in_key_or_topic")
+        complaint = text_verdict(t, i)
+        case = {"kind": "parse", "text": t, "impl": i, "model": m, "reproduce_hook": "printf 'mparse %s\\n' | imdl-verif-harness" % lib.hexs(t)}
+        if complaint:
+            ctx.violation("oracle-failure", complaint, case)
+        elif (i.startswith("OK "), i if i.startswith("OK ") else "") != (m.startswith("OK "), m if m.startswith("OK ") else ""):
+            ctx.cov["disagreements_checked"] += 1
+            ctx.violation("model-impl-disagreement", "Magnet.own_parse with Utf8.lossy and MagnetLink::parse differ on %r: %s / %s" % (t, m[:100], i[:100]),
+                          dict(case, relation="own_parse Utf8.lossy"))
+
+
 # ---------------------------------------------------------------- run
 
 CORPUS_PRINT = [
@@ -814,6 +1147,12 @@ def run(ctx):
     run_text_cases(ctx, texts, norm, "parse_generated")
     ctx.sample({"mparse text": texts[0]})
 
+    # 2b. String::from_utf8_lossy (X12): dn values that percent-decode to arbitrary byte strings, through the hook, Rust's std
+    # directly, the extracted Utf8.lossy / chunks / own_parse-with-Utf8.lossy, and CPython's errors="replace"
+    run_lossy_cases(ctx)
+    lossy_rejects = lossy_reject_texts(r, ctx.n(400, 6000))
+    run_lossy_reject_cases(ctx, lossy_rejects)
+
     # 3. Metainfo::trackers
     sets = [(None, None), ("udp://a.example:1", [["udp://a.example:1", "udp://b.example:2"], ["udp://b.example:2"], []])] + \
         gen_tracker_sets(r, ok_tr, ctx.n(600, 20000))
@@ -835,7 +1174,7 @@ def run(ctx):
                        tiers=[[r.choice(comma_free) for _ in range(r.randint(1, 2))] for _ in range(r.choice([0, 0, 1, 2]))],
                        peer_args=[r.choice(ok_pe) for _ in range(r.choice([0, 1, 2]))]))
     run_e2e_create(ctx, cr, norm)
-    run_e2e_reject(ctx, CORPUS_TEXT + texts[:ctx.n(30, 300)])
+    run_e2e_reject(ctx, CORPUS_TEXT + texts[:ctx.n(30, 300)] + lossy_rejects[:ctx.n(40, 400)])
     link_with_unparseable_trackers(ctx)
     # end to end with create (X5, c10_created_bytes_link_back): real `create --link`, then `link` of the written file, against
     # the extracted composition build -> encode -> loader + infohash -> link_cmd and against the command line itself
@@ -846,10 +1185,11 @@ def run(ctx):
 
 def coqchk(ctx):
     """thorough tier: the compiled proofs once more through the independent checker"""
-    rc, out = lib.sh(["coqchk", "-silent", "-o", "-Q", ".", "Imdl", "Imdl.Proofs.MagnetProofs", "Imdl.Generated.GenMagnet"],
+    rc, out = lib.sh(["coqchk", "-silent", "-o", "-Q", ".", "Imdl", "Imdl.Proofs.MagnetProofs", "Imdl.Generated.GenMagnet",
+                      "Imdl.Proofs.Utf8Proofs", "Imdl.Proofs.Utf8Agree", "Imdl.Proofs.MagnetUtf8"],
                      cwd=lib.COQ, timeout=900)
     ok = rc == 0 and "* Axioms: <none>" in out and "type-in-type: <none>" in out
-    ctx.notes.append("coqchk -o on Proofs.MagnetProofs, Generated.GenMagnet: %s" % ("no axioms, ok" if ok else "FAILED"))
+    ctx.notes.append("coqchk -o on Proofs.MagnetProofs, Generated.GenMagnet, Proofs.Utf8Proofs, Proofs.Utf8Agree, Proofs.MagnetUtf8: %s" % ("no axioms, ok" if ok else "FAILED"))
     if not ok:
         ctx.violation("obligation-broken", "coqchk rejects the compiled C10 development or finds axioms",
                       {"theorems": ["Imdl.Proofs.MagnetProofs"], "coq_log": out[-3000:]})
@@ -860,7 +1200,9 @@ def finish(ctx):
         "Url::parse(u.as_str()) == u for every tracker a link holds (url crate invariant) - hypothesis of c10_own_parser_roundtrip, "
         "checked through the hooks for every tracker value used",
         "HostPort::from_str(p.to_string()) == p for every peer a link holds (C17) - same, checked for every peer value used",
-        "String::from_utf8_lossy is the identity on valid UTF-8 (names, tracker and peer texts are Rust Strings)",
+        "String::from_utf8_lossy behaves as read in library/core/src/str/lossy.rs (Utf8Chunks) and library/alloc/src/string.rs - modelled in "
+        "Model/Utf8.v, no longer a hypothesis of the theorems (c10_own_parser_roundtrip_utf8, c10_own_parser_any_name); compared on every "
+        "run with the parser through the magnet_parse hook, with std called directly, and with CPython's errors=\"replace\" decoder",
         "Url::set_query / Url::parse / query_pairs behave as read in url 2.5.2 (QUERY encode set, TAB/LF/CR dropped, C0/space trimmed, "
         "form_urlencoded::parse) - modelled in Model/Magnet.v, exercised by the mparse stream",
         "typed fields are compared modulo url-crate normal form (normal forms taken from imdl's own typed parsers through hooks)",
@@ -870,15 +1212,21 @@ def finish(ctx):
              "look-alikes, TAB/LF/CR, C0/DEL, non-ASCII, empty; 0-5 trackers with their own queries/escapes/fragments and 0-4 peers "
              "(domain, IPv4, bracketed IPv6) in url-crate normal form; index lists with duplicates up to 2^64-1. parse cases: valid and "
              "damaged topics (length, non-hex, escaped digits, other urn, key variants), scheme/whitespace/fragment/empty-segment "
-             "variants, bad typed values. tracker cases: announce/tier lists with repeats. E2E: `torrent link`, `create --link`, "
+             "variants, bad typed values. lossy cases (counts utf8_*): dn values that percent-decode to every 1- and 2-byte string, every "
+             "3-byte string over 25 boundary bytes, every truncation of 2/3/4-byte boundary characters followed by each kind of byte, every "
+             "class of invalid sequence (lone continuation, truncated, overlong C0/C1 / E0 80..9F / F0 80..8F, surrogate ED A0..BF, above "
+             "F4 8F, F5..FF, bad second / third / fourth byte) alone, at the start, at the end, between valid text and next to every other "
+             "class, and >= 20 000 seeded mixtures; invalid UTF-8 in keys and topics. tracker cases: announce/tier lists with repeats. E2E: `torrent link`, `create --link`, "
              "`from-link` rejections; end to end with create (counts x5_*): C05's generator of `create` command lines - real "
              "`create --link --output`, then `link [--peer] [--select-only]` of the written file, compared with the extracted "
              "composition build -> encode -> loader + infohash -> link_cmd (and the lossy path) and with the command line itself. "
              "A case is distinct/non-trivial by (set of reserved-character classes present, #trackers, #peers, "
-             "indices present) resp. (oracle class, verdict, prefix, %/+/# present) resp. (list sizes before/after de-duplication).",
+             "indices present) resp. (oracle class, verdict, prefix, %/+/# present) resp. (list sizes before/after de-duplication) resp. "
+             "(the lengths of the valid and invalid parts of the Utf8Chunks items of a string that is not pure ASCII).",
         trusted_base=["Coq 8.16.1 kernel (coqc), vm_compute for the 256-entry safe-set table", "tools/rs2v.py + tools/rs2v_magnet.py (GenMagnet)",
-                      "extraction with ExtrOcamlBasic + runner/driver.d/magnet.ml, runner/driver.d/endtoendshow.ml", "Rust hooks magnet_print / magnet_parse / metainfo_trackers / "
-                      "hostport_parse + harness line protocol", "Python oracle in tools/props/c10.py (urllib.parse, hashlib, lib.bdecode_strict)"],
+                      "extraction with ExtrOcamlBasic + runner/driver.d/magnet.ml, runner/driver.d/utf8.ml, runner/driver.d/endtoendshow.ml", "Rust hooks magnet_print / magnet_parse / metainfo_trackers / "
+                      "hostport_parse + harness line protocol", "Python oracle in tools/props/c10.py (urllib.parse, hashlib, lib.bdecode_strict, bytes.decode errors=replace)",
+                      "the 20-line Rust program UTF8_STD_RS in tools/props/c10.py (calls String::from_utf8_lossy / utf8_chunks directly; rustc)"],
     )
 
 
@@ -907,6 +1255,16 @@ def replay(ctx, path):
         print("impl  :", ctx.harness(["mparse " + lib.hexs(t)])[0][:300])
         print("model :", ctx.model(["mparse " + lib.hexs(t)])[0][:300])
         print("oracle:", oracle_parse_text(t)[:2])
+    elif kind == "lossy":
+        b, t = bytes.fromhex(case["bytes"]), case["text"]
+        print("bytes :", b.hex() or "-")
+        print("text  :", t)
+        print("impl  :", ctx.harness(["mparse " + lib.hexs(t)])[0][:300])
+        print("model :", ctx.model(["u8lossy " + lib.hexs(b)])[0][:300], "(lossy, from_utf8_lossy, valid, Utf8Chunks items)")
+        print("model :", ctx.model(["mparse_lossy " + lib.hexs(t)])[0][:300], "(own_parse with Utf8.lossy)")
+        std = std_direct(ctx, [b])
+        print("std   :", std[0][:300] if std else "unavailable")
+        print("python:", b.decode("utf-8", "replace").encode().hex() or "-", fmt_chunks(py_chunks(b)))
     elif kind == "trackers":
         a, t = case["announce"], case["tiers"]
         print("impl  :", ctx.harness(["trackers " + lib.hexs(torrent_bytes("n", a, t))])[0])
